@@ -157,6 +157,7 @@ class Check(PropCheck):
     id = 'C04'
     stream = 'C04'
     exhaustive_in = ()
+    extra_modules = ('AHP.Props.TreeModels',)
     rule = ('lock-step histories of the public mutating calls (appendText, appendChild, appendBlock(s), appendInnerHTML, '
             'insertBefore, insertAfter, removeText(All), remove, removeChild(ren), removeBlock(s), setAttribute) on detached, '
             'parser-owned and indexed-parser-owned trees. Small universe: every single call (every element as target, 3 spare '
